@@ -28,7 +28,7 @@ BUDGET = {
     "quick": {"cases": 12000, "seconds": 90, "shards": 8},
     "thorough": {"cases": 300000, "seconds": 900, "shards": 16},
 }
-REQUIRED_OBS = ["remove_ok", "update_queued_improve", "insert_full_refused", "remove_empty_refused",
+REQUIRED_OBS = ["reinsert_after_return", "numpy_scalar_costs", "remove_ok", "update_queued_improve", "insert_full_refused", "remove_empty_refused",
                 "update_white_inserts", "tie_at_remove", "drained_heaps", "policy_via_setter", "continued_on_deepcopy", "capacity>=256", "exhaustive_sequences", "live_removes", "live_decrease_keys"]
 MIN_NONTRIVIAL = 200
 
@@ -46,7 +46,7 @@ def _consts():
 
 
 # --------------------------------------------------------------------------- executor + oracle
-def run_ops(size, policy, ops, res=None, drain=True, via_setter=False):
+def run_ops(size, policy, ops, res=None, drain=True, via_setter=False, cost_type=None):
     """Run `ops` on the real heap, judging each observation against the model.  Returns Result."""
     res = res or Result()
     c = _consts()
@@ -58,10 +58,15 @@ def run_ops(size, policy, ops, res=None, drain=True, via_setter=False):
     else:
         h = Heap(size=size, policy=policy)
     better = (lambda a, b: a < b) if policy == "min" else (lambda a, b: a > b)
+    conv = (lambda v: v)
+    if cost_type:                       # costs handed over as numpy scalars of a narrow / unsigned type (the model keeps Python ints)
+        import numpy as _np
+        conv = getattr(_np, cost_type)
+        res.see("numpy_scalar_costs")
     queued = {}      # id -> cost   (the model)
     removed = []     # ids returned so far
     never = set(range(size))
-    n_removes = n_improve = 0
+    n_removes = n_improve = n_reins = 0
 
     def observe(tag):
         e, f = h.is_empty(), h.is_full()
@@ -85,13 +90,25 @@ def run_ops(size, policy, ops, res=None, drain=True, via_setter=False):
             _, p, v = op
             if p not in never or not (0 <= p < size):
                 return res.reject("illegal-sequence")
-            h.cost[p] = v
+            h.cost[p] = conv(v)
             r = h.insert(p)
             if r is not True:
                 res.violate("insert", "C05/insert-result", f"{tag}: insert returned {r!r} on a non-full heap")
             queued[p] = v
             never.discard(p)
             res.see("insert_ok")
+        elif kind == "reins":                  # an element that was queued and returned before is inserted again
+            _, p, v = op
+            if p not in removed_set or p in queued or len(queued) == size:
+                return res.reject("illegal-sequence")
+            h.cost[p] = conv(v)
+            r = h.insert(p)
+            if r is not True:
+                res.violate("insert", "C05/insert-result", f"{tag}: insert of a previously returned element returned {r!r} on a heap holding {len(queued)}/{size}")
+            queued[p] = v
+            removed_set.discard(p)
+            n_reins += 1
+            res.see("reinsert_after_return")
         elif kind == "upd":                    # h.update(p, v)
             _, p, v = op
             if p in removed_set or not (0 <= p < size) or (p in queued and better(queued[p], v)):
@@ -107,7 +124,7 @@ def run_ops(size, policy, ops, res=None, drain=True, via_setter=False):
                 queued[p] = v
                 never.discard(p)
                 res.see("update_white_inserts")
-            h.update(p, v)
+            h.update(p, conv(v))
         elif kind == "rem":
             r = h.remove()
             if not queued:
@@ -171,8 +188,8 @@ def run_ops(size, policy, ops, res=None, drain=True, via_setter=False):
         observe("drain")
         if h.remove() is not False:
             res.violate("drain", "C05/remove-empty", "remove after drain did not return False")
-        if len(removed) != len(set(removed)):
-            res.violate("drain", "C05/returned-twice", f"an id was returned twice: {removed}")
+        if len(removed) != len(set(removed)) + n_reins:
+            res.violate("drain", "C05/returned-twice", f"an id was returned more often than it was inserted: {removed} ({n_reins} re-insertions)")
         res.see("drained_heaps")
     if size >= 256:
         res.see("capacity>=256")
@@ -211,11 +228,16 @@ def generate(rng, tier, idx):
         size = int(rng.choice([256, 257, 258, 300]))          # capacities around CPython's small-int cache
     policy = "min" if rng.random() < 0.5 else "max"
     draw = _cost_source(rng, policy)
+    cost_type = None
+    if rng.random() < 0.06:
+        cost_type = str(rng.choice(["uint8", "uint16", "uint64", "int8", "float32"]))
+        draw = (lambda: int(rng.integers(0, 100)))
     mode = int(rng.integers(0, 3))
     sign = 1.0 if policy == "min" else -1.0
-    queued, white = {}, list(range(size))
+    queued, white, again = {}, list(range(size)), []
     rng.shuffle(white)
     ops = []
+    refill = rng.random() < 0.15          # drain completely now and then, and start again with ids that were already returned
     nops = int(rng.integers(4, 6 * size + 12))
 
     def improve(p):
@@ -224,7 +246,8 @@ def generate(rng, tier, idx):
         if r < 0.2:
             return cur
         if isinstance(cur, int):            # integer costs stay exact integers
-            return cur - int(sign) * int(rng.integers(1, 4))
+            nv = cur - int(sign) * int(rng.integers(1, 4))
+            return min(max(nv, 0), 120) if cost_type else nv
         step = abs(draw()) + (1.0 if rng.random() < 0.5 else 0.0)
         v = cur - sign * step
         if not np.isfinite(v):
@@ -242,6 +265,21 @@ def generate(rng, tier, idx):
         if len(queued) == size and rng.random() < 0.15:
             ops.append(["ins_full", int(rng.integers(0, size))])
             continue
+        if refill and not queued and again and rng.random() < 0.8:
+            for p in list(again)[::-1] if rng.random() < 0.5 else list(again):
+                v = draw()
+                queued[p] = v
+                ops.append(["reins", int(p), v])
+            again = []
+            continue
+        if want == "ins" and again and len(queued) < size and rng.random() < 0.4:
+            p = again.pop(int(rng.integers(0, len(again))))
+            v = draw()
+            queued[p] = v
+            ops.append(["reins", int(p), v])
+            continue
+        if refill and want == "ins" and len(ops) > size:
+            want = "rem"
         if want == "ins":
             if not white:
                 want = "upd"
@@ -273,6 +311,8 @@ def generate(rng, tier, idx):
         if len(cands) == 1:
             del queued[cands[0]]
             ops.append(["rem"])
+            if rng.random() < 0.6:
+                again.append(cands[0])
         else:
             # tie: any of cands may leave.  Keep the sequence legal whichever leaves: afterwards only touch
             # ids outside cands until the tie group is gone -> simplest: remove the whole tie group now.
@@ -280,12 +320,14 @@ def generate(rng, tier, idx):
                 ops.append(["rem"])
             for p in cands:
                 del queued[p]
+                if rng.random() < 0.6:
+                    again.append(p)
     if rng.random() < 0.1 and len(ops) > 3:
         ops.insert(int(rng.integers(1, len(ops))), ["deepcopy"])       # the history continues on a deep copy of the heap
     if size >= 256:
         # make sure the big heap gets full at least once
         ops = [["ins", int(p), float(rng.integers(0, 5))] for p in range(size)] + [["ins_full", 0], ["rem"], ["rem"]]
-    return {"size": size, "policy": policy, "ops": ops, "via_setter": bool(rng.random() < 0.2)}
+    return {"size": size, "policy": policy, "ops": ops, "via_setter": bool(rng.random() < 0.2), "cost_type": cost_type}
 
 
 def check(case):
@@ -293,14 +335,14 @@ def check(case):
         return _live(case)
     if "exhaustive_sweep" in case:
         return Result()
-    return safe_run_ops(int(case["size"]), case["policy"], case["ops"], via_setter=bool(case.get("via_setter")))
+    return safe_run_ops(int(case["size"]), case["policy"], case["ops"], via_setter=bool(case.get("via_setter")), cost_type=case.get("cost_type"))
 
 
-def safe_run_ops(size, policy, ops, drain=True, via_setter=False):
+def safe_run_ops(size, policy, ops, drain=True, via_setter=False, cost_type=None):
     """run_ops, with an exception escaping the heap on a LEGAL sequence reported as what it is: an operation that delivered nothing."""
     res = Result()
     try:
-        return run_ops(size, policy, ops, res=res, drain=drain, via_setter=via_setter)
+        return run_ops(size, policy, ops, res=res, drain=drain, via_setter=via_setter, cost_type=cost_type)
     except (IndexError, RecursionError, TypeError, ValueError, KeyError, AttributeError, ZeroDivisionError, OverflowError) as ex:
         import traceback
         frames = [f for f in traceback.extract_tb(ex.__traceback__) if "heap.py" in f.filename]
@@ -365,6 +407,10 @@ def _legal_next(size, policy, queued, white, alphabet):
                 yield ("upd", p, v)
     if len(queued) == size:
         yield ("ins_full", 0)
+    else:
+        for p in range(size):                   # ids that were queued and returned before may be inserted again
+            if p not in white and p not in queued:
+                yield ("reins", p, alphabet[1])
 
 
 def _live_cases(tier, seed, shard, nshards):
@@ -446,6 +492,10 @@ def _model_after(size, policy, seq):
             r = h.remove()
             if r is not False and r in queued:
                 del queued[r]
+        elif op[0] == "reins":
+            h.cost[op[1]] = op[2]
+            h.insert(op[1])
+            queued[op[1]] = op[2]
         elif op[0] == "ins_full":
             h.insert(op[1])
     return queued, white
